@@ -1,7 +1,11 @@
 (* C08 — conversion results depend only on declared equivalences, not on query history. *)
 From Coq Require Import List Bool.
 Import ListNotations.
-From Measured Require Import Model.Memo Proofs.MemoFacts.
+From stdpp Require Import gmap.
+From Coq Require Import ZArith QArith.
+From Measured Require Import Model.Memo Proofs.MemoFacts Model.FMap Model.Units Model.Convert.
+Local Close Scope Q_scope.
+Local Close Scope Z_scope.
 
 (* For ANY planner f (a function of the declarations and the queried pair), any notion of which
    results lru_cache stores, and ANY interleaving l of declarations and queries: a query issued
@@ -33,3 +37,28 @@ Theorem C08_refuted_without_invalidation :
   /\ snd (mrun Nat.eqb f (fun _ => true) true minit [Query 5; Declare 5; Query 5]) = [Some false; None; Some true].
 Proof. exact memo_stale. Qed.
 Print Assumptions C08_refuted_without_invalidation.
+
+(* ---- what the memo theorem does not cover: the planner f itself reads the factor order of the interned operands ----
+   A*B and B*A are one interned unit whose factor order is that of its first construction (the `ord` table of
+   Model/Convert.v, exported from the implementation).  With two dimensionless units qa, qb and the single declaration
+   qb = 8 qa, the conversion of 3 qa^-2*qb into qa^-1 is 24 when the operand was first built as qb*qa^-2 and 3 when it
+   was first built as qa^-2*qb: the same declarations, the same query, two outcomes.  The implementation does the same
+   (harness/c08.py, scenario "operand-order"; known finding history-dependent:factor-order). *)
+Section FactorOrder.
+  Local Open Scope Z_scope.
+  Let qa : unit3 := MkU (MkP 0 0) (of_list [(1%positive, 1)]) fone.
+  Let qb : unit3 := MkU (MkP 0 0) (of_list [(2%positive, 1)]) fone.
+  Let src : unit3 := MkU (MkP 0 0) (of_list [(1%positive, (-2)); (2%positive, 1)]) fone.
+  Let tgt : unit3 := MkU (MkP 0 0) (of_list [(1%positive, (-1))]) fone.
+  Let bd : env := [(1%positive, fone); (2%positive, fone)].
+  Let tbl : table := [(uone, [(uone, (1 # 1)%Q)]); (qb, [(qa, (8 # 1)%Q)]); (qa, [(qb, (1 # 8)%Q)])].
+  Let ord_common : ordtab := [(uone, [(0%N, 1)]); (qb, [(2%N, 1)]); (qa, [(1%N, 1)]); (tgt, [(1%N, (-1))])].
+  Let ord_history : ordtab := ord_common ++ [(src, [(2%N, 1); (1%N, (-2))])].
+  Let ord_fresh : ordtab := ord_common ++ [(src, [(1%N, (-2)); (2%N, 1)])].
+
+  Theorem C08_refuted_factor_order :
+    (exists v, convert bd tbl ord_history [] 300 (3 # 1) src tgt = COk v /\ Qeq_bool v (24 # 1) = true) /\
+    (exists v, convert bd tbl ord_fresh [] 300 (3 # 1) src tgt = COk v /\ Qeq_bool v (3 # 1) = true).
+  Proof. split; eexists; split; vm_compute; reflexivity. Qed.
+End FactorOrder.
+Print Assumptions C08_refuted_factor_order.
